@@ -298,10 +298,10 @@ def fragment_correspondence(ctx: fw.Ctx):
         if facts and facts[0] == "ok":
             # the decidable hypotheses / conclusions of the fragment theorems on this input, evaluated by
             # the compiled model: C01.frag_tokens_preserved and frag_safe have no exclusion (whole fragment,
-            # parentheses and calls included), C18.frag_spacing_nf holds under beforeFlatB for the container
-            # part (`File.basic`). An instance contradicting a theorem means the driver does not run
-            # the model the theorems are about. For files with parentheses / calls the spacing conclusion
-            # is only counted (not proved yet).
+            # parentheses, calls and `with` included), C18.frag_spacing_nf holds under beforeFlatB for the
+            # part without `with` (`File.basic`). An instance contradicting a theorem means the driver does
+            # not run the model the theorems are about. For files with `with` the spacing conclusion is
+            # only counted (not proved yet).
             o_ok, clean, safe, nf, tk, basic = (x == "t" for x in facts[1:7])
             hyp["inputs"] += 1
             hyp["orderOk"] += o_ok
@@ -356,6 +356,12 @@ def fragment_correspondence(ctx: fw.Ctx):
                 if bad <= 5:
                     ctx.tie_break("parser-contract", "File.norm f is not the tree tree-sitter returns for the output",
                                   request={"text": text}, implementation=real_tree, model=norm[2])
+        if pieces and pieces[0] == "uncovered":
+            # inside what the string-level model covers (`File.modelled`: `assert`, comments in the inner gaps of
+            # `with` / `assert`) but outside the theorems' fragment (`File.wf`): the round trip was compared, the
+            # piece-level statements do not apply
+            cov["model_only"] = cov.get("model_only", 0) + 1
+            continue
         if not pieces or pieces[0] != "ok":
             bad += 1
             if bad <= 5:
@@ -391,12 +397,21 @@ def fragment_correspondence(ctx: fw.Ctx):
 # (classified with parent "<fragment>" and the theorem's name), so an open defect stays visible on
 # every run and a repaired one makes the `cex_*` theorem the thing that breaks the tie.
 FRAGMENT_PROBES = [
+    ("Nima.C01.cex_unary_minus_path_fused", "C01", "- ./p.nix\n"),
+    ("Nima.C01.cex_unary_minus_path_fused", "C01", "{\n  a = - ./p.nix;\n}\n"),
     ("Nima.C03.cex_comment_overtakes", "C03", "[ x\n /* b */ /* c */ y ]"),
     ("Nima.C03.cex_comment_overtakes", "C03", "x\n# a\n/* b */ /* c */\n"),
     ("Nima.C03.cex_call_comment_reordered", "C03", "f/* a */ /* b */ x"),
+    ("Nima.C03.cex_comment_after_assert", "C03", "assert a; b # c\n"),
+    ("Nima.C03.cex_comment_after_assert", "C03", "(assert a; b /* c */)"),
     ("Nima.C18.cex_block_comment_after_opener", "C18", "{ /* c */ a = 1; }"),
     ("Nima.C18.cex_comment_after_open_paren", "C18", "[\n  ( /* c */ x)\n]"),
+    ("Nima.C18.cex_comment_touching_function", "C18", "{\n  a = f/* c */ x;\n}"),
+    ("Nima.C18.cex_blank_lines_around_operator", "C18", "a\n\n\n  + b\n"),
+    ("Nima.C18.cex_blank_lines_after_colon", "C18", "x:\n\n\n  y\n"),
     ("Nima.C06.cex_comment_around_semicolon", "C06", "{ a = 1 # c\n; # d\n}"),
+    ("Nima.C06.cex_assert_in_one_line_container", "C06", "{ a = assert x; y; }\n"),
+    ("Nima.C06.cex_assert_in_one_line_container", "C06", "[ (assert x; y) ]\n"),
 ]
 
 
